@@ -324,6 +324,12 @@ class FakeNumpy:
         if isinstance(a, (int, float)):
             return math.sqrt(a)
         if isinstance(a, Size):
+            # the square root of a perfect square of sizes (r * r: the doubled bond of <psi| . |psi>) is a size again
+            if len(a.terms) == 1:
+                (mono, c), = a.terms.items()
+                rc = math.isqrt(c) if c > 0 else -1
+                if rc * rc == c and all(e_ % 2 == 0 for _a, e_ in mono):
+                    return Size({tuple((a_, e_ // 2) for a_, e_ in mono): rc}, a.reg)
             return scalar('real', 'sqrt')
         a = as_arr(a)
         return Arr(a.shape, a.legs, a.dt, None, {}, 'sqrt')
@@ -724,8 +730,20 @@ class FakeNumpy:
         return Arr((), [], 'int', None, {}, 'argmax')
 
     @staticmethod
-    def unique(a, axis=None, return_inverse=False, **k):
+    def unique(a, axis=None, return_inverse=False, return_counts=False, return_index=False, **k):
         a = as_arr(a)
+        if axis == 0 and a.ndim == 2 and not return_inverse and not return_index and not k:
+            # distinct rows (sorted) and how often each occurs: the counts sum to the number of rows
+            k_ = ctx().atoms.new('u', free=True, upper=[a.shape[0]], origin='np.unique: number of distinct rows')
+            lead = (A.opaque_leg(k_, 'distinct'),)
+            u = Arr([k_, a.shape[1]], [lead, a.legs[1]], a.dt, None, {'unique_of': a, 'unique_axis': 0}, 'unique')
+            ctx().event('unique', array=a, axis=0, counts=bool(return_counts), result=u)
+            if return_counts:
+                cnt = Arr([k_], [lead], 'int', None, {'counts_of': u, 'counted': a, 'total': a.shape[0]}, 'unique_counts')
+                return [u, cnt]
+            return u
+        if return_counts or return_index:
+            raise AnalysisError('np.unique in this form has no model')
         if axis == 1 and a.ndim == 2:
             k_ = ctx().atoms.new('u', free=True, upper=[a.shape[1]], origin='np.unique: number of distinct columns')
             u = Arr([a.shape[0], k_], None, a.dt, None, {'unique_of': a}, 'unique')
